@@ -183,9 +183,25 @@ def settled(ps, r, st):
             and all(v > 0 for (_, v, ok) in ps.set_size_steps if ok))
 
 
+def cancel_targets(st):
+    """(ids named by successful cancel() calls per pool, pools on which any other cancelling op was used)"""
+    named, other = {}, set()
+    for j, toks in enumerate(st.toks):
+        o = st.obs[j]
+        if o is None or len(toks) < 3 or toks[0] != "on":
+            continue
+        pi = int(toks[1])
+        if toks[2] in ("stop", "stop_all", "cancel_group", "cancel_all"):
+            other.add(pi)
+        elif toks[2] == "cancel" and o["r"] == "ok":
+            named.setdefault(pi, set()).update(int(x) for x in toks[3:] if not x.startswith("@"))
+    return named, other
+
+
 def mon_C04(st):
     out = []
     qj = quiet_step(st)
+    named, other = cancel_targets(st)
     for pi, ps in enumerate(st.pools):
         for r in ps.reqs:
             if r.kind not in ("apply", "start") or r.num is None:
@@ -200,6 +216,13 @@ def mon_C04(st):
             if qj is not None and r.step <= qj and settled(ps, r, st) and not ps.has_hooks:
                 if len(r.tids) != exp:
                     out.append(("invocations-lost", qj, f"pool {pi} group {r.name}: {len(r.tids)} of {exp} invocations at rest"))
+                if pi not in other:
+                    # an invocation is the worker coroutine being entered: only a cancel() naming the task may prevent it
+                    never = [tid for tid in r.tids if ps.tasks[tid].S is None and tid not in named.get(pi, set())]
+                    if never:
+                        out.append(("invocation-never-ran", qj,
+                                    f"pool {pi} group {r.name}: tasks {never} were created but func was never entered, "
+                                    f"though neither they nor the group were cancelled"))
     return out
 
 
@@ -382,6 +405,21 @@ def mon_C07(st):
                         and not finished_before(t, j) and not any(x[0] <= j for x in t.cc)
                         and not any(x[0] <= j for x in t.ec) and t.X is None):
                     out.append(("unfinished-task-not-cancelled", j, f"pool {pi} group {r.name} task {tid}"))
+    # a worker that cancels its own group (or everything) at its start and then awaits must itself be cancelled
+    if qj is not None:
+        for pi, ps in enumerate(st.pools):
+            for t in ps.tasks.values():
+                r = t.req
+                if r is None or r.spec is None or r.spec["hooks"] == "-" or r.spec["mode"] != "g":
+                    continue
+                start_ops = []
+                for part in r.spec["hooks"].split("|"):
+                    pt, ops = part.split(":")
+                    if pt == "s":
+                        start_ops = [o for o in ops.split(";") if o]
+                if any(o[0] in "oa" for o in start_ops) and t.S is not None and t.S <= qj and t.X is None:
+                    out.append(("self-cancelling-worker-not-cancelled", t.S,
+                                f"pool {pi} task {t.tid} cancelled its own group in its body and kept running"))
     return out
 
 
